@@ -340,6 +340,19 @@ func (w *World) settleStop() {
 	for i := 0; i < 400; i++ {
 		synctest.Wait()
 		w.drainFrames()
+		if i == 0 {
+			// Stop / connection loss is in progress (or already done): a
+			// new client tries to connect. C20: it must be refused.
+			w.mu.Lock()
+			running := w.running
+			w.mu.Unlock()
+			if running {
+				w.probes++
+				w.openRefused(fmt.Sprintf("probe%d", w.probes))
+				synctest.Wait()
+				w.drainFrames()
+			}
+		}
 		if gs := w.pendingGates(); len(gs) > 0 {
 			w.release(gs[0])
 			continue
